@@ -43,6 +43,14 @@ func runC04(p *Prog, r *Result) {
 	checkQuoteContextsMarked(p, r, si, "R04g")
 	r.Rule("R04h", "an expansion is taken out of its double quotes only after a predicate that distinguishes quoting nodes has looked inside it", 1)
 	checkUnquoteLooksInside(p, r, si, "R04h")
+	r.Rule("R04i", "a subshell's parentheses are removed only from a place whose statements the interpreter runs on a copy of the shell (the places are read off package interp, per operator)", 2)
+	checkSubshellUnwrapContexts(p, r, si, "R04i")
+	r.Rule("R04k", "the simplifier stores none of a statement's execution attributes (Negated, Background, Coprocess, Disown, Redirs); zero stores on the pinned tree, armed by a control", 0)
+	if n := checkStatementFlagsUntouched(p, r, si, "R04k"); n == 0 {
+		r.Notef("R04k: no function of simplify.go stores a bool field or the redirections of a Stmt")
+	}
+	r.Rule("R04j", "the parameter expansions the parser accepts as an arithmetic assignment target and the one the `$name` inlining rewrites exclude each other (predicate disjointness: isArithName against ParamExp.simple)", 1)
+	checkInliningAvoidsTargets(p, r, si, "R04j")
 	r.Rule("R04d", "string builders used across loop iterations in the simplifier are reset on every path back to the loop head", 0)
 
 	simpT := lookupType(pkg, "simplifier")
@@ -873,6 +881,14 @@ func reachableFromAvoidingBlock(g *FGraph, b *FBlock, i int, head *FBlock, stop 
 }
 
 var c04Controls = []Control{
+	{Name: "negation-of-a-test-merged-into-its-operator", Rule: "R04k", WantKey: "mergeNegated#stores Stmt.Negated", File: "syntax/simplify.go",
+		Mutate: ctlChain(ctlReplaceAnywhere("\tcase *TestClause:\n", "\tcase *Stmt:\n\t\ts.mergeNegated(node)\n\tcase *TestClause:\n"),
+			ctlAppendDecl("func (s *simplifier) mergeNegated(st *Stmt) {\n\ttc, _ := st.Cmd.(*TestClause)\n\tif tc == nil || !st.Negated {\n\t\treturn\n\t}\n\tnot := &UnaryTest{OpPos: st.Position, Op: TsNot, X: tc.X}\n\tif x := s.removeNegateTest(not); x != TestExpr(not) {\n\t\ttc.X = x\n\t\tst.Negated = false\n\t}\n}\n"))},
+	{Name: "dollar-name-accepted-as-an-assignment-target", Rule: "R04j", WantKey: "isArithName#a ParamExp accepted as an assignment target", File: "syntax/parser_arithm.go",
+		Mutate: ctlReplaceAnywhere("\t\treturn wp.nakedIndex()\n", "\t\treturn wp.nakedIndex() || (wp.simple() && ValidName(wp.Param.Value))\n")},
+	{Name: "last-pipeline-element-loses-its-parentheses", Rule: "R04i", WantKey: "visit#inlineOne(BinaryCmd.Y)", File: "syntax/simplify.go",
+		Mutate: ctlChain(ctlReplaceAnywhere("\tcase *CmdSubst:\n\t\tnode.Stmts = s.inlineSubshell(node.Stmts)\n", "\tcase *BinaryCmd:\n\t\tif node.Op == Pipe || node.Op == PipeAll {\n\t\t\tnode.X = s.inlineOne(node.X)\n\t\t\tnode.Y = s.inlineOne(node.Y)\n\t\t}\n\tcase *CmdSubst:\n\t\tnode.Stmts = s.inlineSubshell(node.Stmts)\n"),
+			ctlAppendDecl("func (s *simplifier) inlineOne(st *Stmt) *Stmt {\n\tif st.Negated || st.Background || st.Coprocess || st.Disown || len(st.Redirs) > 0 {\n\t\treturn st\n\t}\n\tsub, _ := st.Cmd.(*Subshell)\n\tif sub == nil || len(sub.Stmts) != 1 || len(sub.Last) > 0 {\n\t\treturn st\n\t}\n\tinner := sub.Stmts[0]\n\tif inner.Negated || inner.Background || inner.Coprocess || inner.Disown {\n\t\treturn st\n\t}\n\tif _, ok := inner.Cmd.(*BinaryCmd); ok {\n\t\treturn st\n\t}\n\ts.modified = true\n\treturn inner\n}\n"))},
 	{Name: "unquote-without-looking-inside", Rule: "R04h", WantKey: "unquoteParams#w.Parts = dq.Parts looks inside", File: "syntax/simplify.go",
 		Mutate: ctlReplaceAnywhere("\tif !ok || quoteSensitive(pe) {\n", "\tif !ok || pe == nil {\n")},
 	{Name: "heredoc-body-not-marked", Rule: "R04g", WantKey: "words inside Redirect.Hdoc are not re-quoted", File: "syntax/simplify.go",
